@@ -167,6 +167,26 @@ def run(ctx):
     unknown = [x for x in own_nodes(fs.node) if isinstance(x, ast.Raise) and "StateNotFoundError" in norm(x.exc)]
     c.ob("R4", bool(unknown), fs, "unknown-state-rejected", "a snapshot naming a state the machine lacks raises StateNotFoundError" if unknown else
          "a snapshot naming an unknown state is accepted silently", fs.node)
+    # ---- R7 every persisted configuration id is restored (or rejected) ----------------------------
+    g_fs = cfg_of(fs.node)
+    adds = [w for w in attr_writes(fs) if w.attr == CONFIG_ATTR and w.op == "call:add"]
+    loops = [l for l in own_nodes(fs.node) if isinstance(l, ast.For) and any(any(w.node is x for x in ast.walk(l)) for w in adds)]
+    c.need(loops, "restore loop of from_snapshot")
+    lp = loops[0]
+    itname = lp.iter.id if isinstance(lp.iter, ast.Name) else None
+    defs = [a for a in assignments_to(fs, itname) if isinstance(a, (ast.Assign, ast.AnnAssign))] if itname else []
+    direct = bool(itname) and len(defs) == 1 and "snapshot" in norm(defs[0].value) and not any(
+        isinstance(y, (ast.ListComp, ast.GeneratorExp, ast.SetComp)) or (isinstance(y, ast.Call) and norm(y.func) == "filter") for y in ast.walk(defs[0].value))
+    c.ob("R7", direct or (itname is None and "snapshot" in norm(lp.iter)), fs, "restore-iterates-persisted-ids",
+         "the restore loop iterates the persisted configuration as written" if direct else
+         f"the ids handed to the restore loop are re-assigned / filtered after being read from the snapshot ({len(defs)} assignments of "
+         f"'{itname}'): a persisted active state can be dropped on restore (e.g. a childless compound leaf that is not in state_ids), leaving a "
+         f"parallel state with a missing region", lp)
+    hdr = g_fs.nodes_of(lp)[0]
+    addn = [n for w in adds for n in cfg_node_of(fs, w.node)]
+    ok = shared.unconditional_in_loop(g_fs, hdr, addn)
+    c.ob("R7", ok, fs, "restore-adds-every-id", "every iteration of the restore loop adds the state or raises" if ok else
+         "an iteration of the restore loop can complete without adding the persisted state (and without raising)", lp)
     # ---- R5 ancestor closure on restore ----------------------------------------------------
     shared.snapshot_ancestor_closure(ctx, "R5")
 
